@@ -1493,6 +1493,8 @@ static void vi(void)
 	xtop = MAX(0, xrow - xrows / 2);
 	xoff = 0;
 	xcol = vi_off2col(xb, xrow, xoff);
+	if (xcol >= xleft + xcols)	/* the first character may be drawn beyond the window (reordered text) */
+		xleft = xcol - xcols / 2;
 	term_record();
 	vi_drawagain(xcol, -1);
 	term_pos(xrow - xtop, vi_pos(lbuf_get(xb, xrow), xcol));
